@@ -197,6 +197,10 @@ func bfsGroups(name string, schema am.Schema, names am.S, groups map[string]am.S
 
 func TestGroups(t *testing.T) {
 	st := ev.G()
+	// deterministic and exhaustive: one process of a sharded run is enough
+	if sh := os.Getenv("VERIF_SHARD"); sh != "" && sh != "0" {
+		t.Skip("run by shard 0")
+	}
 	for _, c := range []struct {
 		name   string
 		schema am.Schema
